@@ -349,7 +349,7 @@ def run_property(prop_id, tier="quick", seed=0, jobs=None, only=None, write_evid
                 except BaseException as e:  # noqa
                     units[(f, q)] = {"qualname": q, "file": f, "error": str(e)}
         ev = {
-            "property_id": prop_id, "tier": tier, "seed": int(seed), "level": "proof",
+            "property_id": prop_id, "tier": tier, "seed": int(seed), "level": getattr(mod, "LEVEL_CATEGORY", "proof"),
             "coverage": {
                 "obligations": max(n_oblig, 0), "discharged": n_disch,
                 "checker_cmd": f"./check {prop_id} --tier {tier}",
